@@ -316,9 +316,23 @@ def judge(rec, txns, hostile, rnd, tmp, with_views):
         shutil.rmtree(out, ignore_errors=True)
         os.makedirs(out)
         path = os.path.join(out, 'report.html')
+        stale = (not embedded) and rnd.random() < .4
+        if stale:
+            # the folder already holds the files of a report written by an EARLIER tally (another script, another style sheet)
+            for nm in ('spending_report.js', 'spending_report.css', 'spending_data.js', 'report.html'):
+                with open(os.path.join(out, nm), 'w') as fh:
+                    fh.write('/* written by an older version */\n')
         try:
             A.write_summary_file_vue(stats, path, year=2025, currency_format=cur, sources=sorted({t['source'] for t in txns}), embedded_html=embedded)
             rec.count('html_renderings')
+            if stale:
+                rec.count('reports_written_over_an_older_versions_files')
+                import tally as _t
+                for nm in ('spending_report.js', 'spending_report.css'):
+                    src_ = os.path.join(os.path.dirname(_t.__file__), nm)
+                    if os.path.exists(src_) and open(os.path.join(out, nm), encoding='utf-8').read() != open(src_, encoding='utf-8').read():
+                        rec.violation('report-folder-keeps-an-older-versions-script', f'{nm} in the report folder is not the installed one after the report was written again '
+                                      f'(the page would classify with the OLD code)', case)
         except Exception as e:
             rec.violation('write_summary_file_vue-raises:' + type(e).__name__, f'embedded={embedded}: {type(e).__name__}: {e}', case)
             continue
